@@ -15,10 +15,10 @@ from engine import NOTFOUND, identical
 PID = 'C12'
 CVC5_RATE = [0.01]
 TYPES = ['string', 'int', 'float', 'number', 'boolean', 'tuple', 'empty']
-VALUE_KINDS = ['String', 'Float', 'Int', 'Boolean', 'Tuple', 'Empty']
+VALUE_KINDS = ['String', 'Float', 'Int', 'Boolean', 'Tuple', 'Empty', 'Tuple0', 'String0']
 EXPECTED_ERR = {'string': 'ExpectedString', 'int': 'ExpectedInt', 'float': 'ExpectedFloat', 'number': 'ExpectedNumber', 'boolean': 'ExpectedBoolean',
                 'tuple': 'ExpectedTuple', 'empty': 'ExpectedEmpty'}
-ACCEPTS = {'string': ['String'], 'int': ['Int'], 'float': ['Float'], 'number': ['Int', 'Float'], 'boolean': ['Boolean'], 'tuple': ['Tuple'], 'empty': ['Empty']}
+ACCEPTS = {'string': ['String', 'String0'], 'int': ['Int'], 'float': ['Float'], 'number': ['Int', 'Float'], 'boolean': ['Boolean'], 'tuple': ['Tuple', 'Tuple0'], 'empty': ['Empty']}
 _C = {}
 
 
@@ -39,6 +39,10 @@ def havoc_value(C, kind):
         return C.v_str(SStr([Int(z3.BitVec('hv_c0', 32), False), Int(z3.BitVec('hv_c1', 32), False)]))
     if kind == 'Tuple':
         return C.v_tuple([C.v_int(z3.BitVec('hv_t0', 64)), C.v_str(SStr([Int(z3.BitVec('hv_t1', 32), False)]))])
+    if kind == 'Tuple0':
+        return C.v_tuple([])        # the degenerate members of a type: an empty tuple is not the empty value, an empty string is a string
+    if kind == 'String0':
+        return C.v_str(SStr([]))
     return C.v_empty()
 
 
@@ -119,7 +123,8 @@ def unit(u, res):
     kind = u[0]
     if kind == 'compose':
         return unit_compose(u, res)
-    _, wname, timeout_ms, seed = u
+    _, wname, timeout_ms, seed = u[:4]
+    symbolic_subject = len(u) > 4
     C = ctx()
     w = [x for x in wrappers(C) if x[0] == wname][0]
     name, body, form, typ, level = w
@@ -164,6 +169,12 @@ def unit(u, res):
     if level == 'string':
         ex.overrides.append((re.compile(r'(interface::)?build_operator_tree'), build_stub))
     subject = sstr('<any expression>') if level == 'string' else C.node(C.operator('RootNode'), [C.node(C.operator('Const', C.v_int(5)))])
+    pre_pc = []
+    if symbolic_subject and level == 'string':
+        # the expression text itself is symbolic (2 free chars): an entry point that looks at the text instead of delegating (a "fast path") shows here
+        sc = [z3.BitVec('subj%d' % i, 32) for i in range(2)]
+        pre_pc = [valid_scalar(x) for x in sc]
+        subject = SStr([Int(x, False) for x in sc])
     ctxv = C.hashmap_context(variables=[('k', C.v_int(z3.BitVec('ctx_k', 64)))], disabled=z3.Bool('ctx_dis'))
 
     def mkargs(st):
@@ -175,7 +186,7 @@ def unit(u, res):
         holder['c'] = c
         return [s, c]
     t0 = time.time()
-    ex2, outs = C.run(body, mkargs, ex=ex)
+    ex2, outs = C.run(body, mkargs, ex=ex, pc=pre_pc)
     res.exec_s += time.time() - t0
     res.feas_queries += ex.nq
     res.bodies |= ex.bodies_used
@@ -356,6 +367,7 @@ def unit_compose(u, res):
 # ---------------------------------------------------------------- replay: realise the stub outcome as a concrete expression
 REALISE = {'Int': ('7', ('Int', 7)), 'Float': ('2.5', ('Float', 0x4004000000000000)), 'Boolean': ('true', ('Boolean', True)), 'String': ('"ab"', ('String', 'ab')),
            'Tuple': ('(1, "a")', ('Tuple', [('Int', 1), ('String', 'a')])), 'Empty': ('()', ('Empty',)), 'ERR': ('missing_variable', None),
+           'Tuple0': ('et', ('Tuple', [])), 'String0': ('""', ('String', '')),
            '?': ('x = 1; x', ('Int', 1))}
 
 
@@ -368,8 +380,10 @@ def replay_ce(ce):
     details = []
     bad = False
     exprs = [REALISE.get(ce['stub_outcome'], REALISE['?'])[0]] + literal_for(ce.get('stub_value')) + ['a = 1; a + 1', 'n = 0; n += 1; n', '(3, 4)', '1 +', 'k += 1; k', 'f(1)', 'k = k * 2; f(k)', 'f(2.5)',
-             'k += 1; "s"', 'k += 1; true', 'k += 1; (k, k)', 'k += 1;', '"x" = 5; x + 1', '("y") = 2; y * 2', '5 = 3', '"k" += 1; k', '1; "z" = 1.5; z']
-    cx = dict(vars=[('k', ('Int', 1))], funcs=[('f', 'log')])
+             'k += 1; "s"', 'k += 1; true', 'k += 1; (k, k)', 'k += 1;', '"x" = 5; x + 1', '("y") = 2; y * 2', '5 = 3', '"k" += 1; k', '1; "z" = 1.5; z',
+             # texts that std parsers accept but the expression language treats differently
+             '+7', '-9223372036854775808', ' 7 ', '007', '1e3', '.5', '5.', 'inf', 'NaN', 'TRUE', 'True', '0x10', '1_000', '+1.5', 't', '']
+    cx = dict(vars=[('k', ('Int', 1)), ('et', ('Tuple', []))], funcs=[('f', 'log')])
     for prof in ('dev', 'release'):
         for expr in exprs:
             # reference: the untyped evaluator with an explicit context; for the context-free forms an explicitly created empty HashMapContext
@@ -501,6 +515,7 @@ def main():
     C = ctx()
     ws = wrappers(C)
     units = [('wrapper', w[0], timeout_ms, seed) for w in ws]
+    units += [('wrapper', w[0], timeout_ms, seed, 'symbolic subject') for w in ws if w[4] == 'string']
     units += [('compose', f, timeout_ms, seed) for f in ('eval_with_context', 'eval_with_context_mut', 'build_operator_tree')]
     results = checklib.run_units(checklib.safe_worker(unit), units)
     # determinism clause: structural scan of the crate for hidden state (reported as an assumption check, not a solver verdict)
